@@ -91,6 +91,25 @@ def record_history(ptn, seed, quick):
                 m = pool[a][1].as_matrix(sparse_format=(op == 'sparse_mat'))
                 m = m.toarray() if op == 'sparse_mat' else m
                 tr.append(dict(ev='dense_mat', a=a, sparse=(op == 'sparse_mat'), m=snap_array_gauss(m, 'as_matrix')))
+        # mode N: dense and sparse forms agree also for operators of tiny / huge magnitude (relative comparison)
+        mpos = [k for k, (c, o) in pool.items() if c == 'mpo' and max(o.bond_dims) <= 4]
+        if mpos:
+            o = pool[int(rng.choice(mpos))][1]
+            sc = ptn.MPO(o.qd, [q.tolist() for q in o.qD], fill='postpone')
+            f = float(rng.choice([1e-3, 1e-4, 1e-5, 1e3, 1e5]))
+            sc.A = [np.array(a, dtype=complex) * f for a in o.A]
+            if rng.random() < 0.5 and L >= 2:
+                sc.A[0] = sc.A[0] * 1e-17
+                sc.A[-1] = sc.A[-1] * 1e17
+            dn = sc.as_matrix()
+            sp = sc.as_matrix(sparse_format=True).toarray()
+            # scale of the comparison: the same contraction with entry-wise absolute values (operators such as
+            # X - X denote 0 and differ between the two forms by rounding of the individual paths only)
+            ab = ptn.MPO(o.qd, [q.tolist() for q in o.qD], fill='postpone')
+            ab.A = [np.abs(a) for a in sc.A]
+            ref = float(np.max(ab.as_matrix())) if dn.size else 0.0
+            tr.append(dict(ev='flag', what=f'dense and sparse matrix forms differ for an operator of magnitude {f:g}^L',
+                           ok=bool(np.max(np.abs(dn - sp), initial=0) <= 1e-12 * ref)))
     except OffLattice as ex:
         tr.append(dict(ev='raise', exc=f'OffLattice: {ex}'))
     except BaseException as ex:  # noqa
